@@ -35,6 +35,27 @@ RE_METHODS = {"match", "search", "fullmatch", "sub", "subn", "split", "findall",
 # N1
 # ----------------------------------------------------------------------
 
+def split_writelines(tree):
+    """<x>.printer.writelines(a, b, c)  ->  <x>.printer.writeline(a); ...writeline(b); ...writeline(c)
+    (PythonPrinter.writelines is `for line in lines: self.writeline(line)`; the arguments are text expressions)"""
+    for node in ast.walk(tree):
+        for f in ("body", "orelse", "finalbody"):
+            v = getattr(node, f, None)
+            if not (isinstance(v, list) and v and isinstance(v[0], ast.stmt)):
+                continue
+            out = []
+            for s in v:
+                c = s.value if isinstance(s, ast.Expr) else None
+                if isinstance(c, ast.Call) and isinstance(c.func, ast.Attribute) and c.func.attr == "writelines" and not c.keywords and c.args and not any(isinstance(a, ast.Starred) for a in c.args) \
+                        and ((isinstance(c.func.value, ast.Attribute) and c.func.value.attr == "printer") or (isinstance(c.func.value, ast.Name) and c.func.value.id == "printer")):
+                    for a in c.args:
+                        one = ast.Expr(value=ast.Call(func=ast.Attribute(value=copy.deepcopy(c.func.value), attr="writeline", ctx=ast.Load()), args=[a], keywords=[]))
+                        out.append(ast.fix_missing_locations(ast.copy_location(one, s)))
+                else:
+                    out.append(s)
+            setattr(node, f, out)
+
+
 def drop_noops(tree):
     for node in ast.walk(tree):
         for f in ("body", "orelse", "finalbody"):
@@ -1810,6 +1831,8 @@ def normalize_package(trees, known=None, passes=None):
     on = lambda k: passes is None or str(k) in passes
     for mn, t in trees.items():
         drop_noops(t)
+        if mn in ("codegen",) or mn.endswith(".codegen"):
+            split_writelines(t)
         if on(2):
             percent_format(t)
         if on(3):
